@@ -8,34 +8,41 @@ frontend has a command budget of 4 x (memory units of the tag) + 64 for each
 of activate(), tag.ndef, has_changed and the second tag.ndef; the
 (budget+1)-th exchange or sense raises a BaseException subclass.
 
-Enumerated (deviation bounded, nothing is sampled; see `bounds` in the
-evidence for the measured grid):
+Enumerated (deviation bounded from valid images, nothing is sampled; the
+measured grid is written to `bounds` in the evidence):
   mut1   every single-byte substitution (256 values) of every management byte
          of every base layout: CC bytes, T and L bytes (1- and 3-byte lengths)
          of every TLV, value bytes of control TLVs, the terminator; Type 3
          attribute block bytes raw and with a re-computed checksum; Type 4
          CC-file bytes and NLEN bytes
-  mut2   every pair of such bytes over the boundary alphabet (thorough; quick
-         walks the pairs of a few layouts)
+  mut2   every pair of such bytes over the boundary alphabet 00 01 02 03 0E 0F
+         10 7F 80 FD FE FF (thorough: also over a 41-value alphabet)
+  mut3   thorough: every triple over 00 01 03 0F FE FF
+  mutw   all 65536 values of the 16-bit words inside multi-byte fields
   act    activation response variants: ATS (subset of TA/TB/TC x historical
-         bytes x TL ok/short/long x FSCI x FWI, ATS of one byte), SENSB_RES
-         12/13 bytes x FSCI x FWI, ATTRIB answers, all HR0/HR1 pairs,
-         SENSF_RES with/without system code x IC code x system codes,
+         bytes x TL ok/short/long x FSCI x FWI, ATS of one or two bytes),
+         SENSB_RES 12/13 bytes x FSCI x FWI, ATTRIB answers, all HR0/HR1
+         pairs, SENSF_RES with/without system code x IC code x system codes,
          GET_VERSION / AUTHENTICATE answers
   stop   the tag leaves after command k, for every k of the fault-free run;
          one timeout / transmission / protocol error at command k
   host   hostile but well-framed answers: ISO-DEP block alphabet at command k
          once and from k on for ever (R(ACK), S(WTX), chaining I-blocks ...),
          READ BINARY policies (empty, short, more than Le), status words per
-         APDU, MLe = 0, Type 3 answers cut short / with status flags / wrong
-         IDm / wrong block count, Type 2 ACK/NAK nibbles instead of data
+         APDU, MLe = 0..3, Type 3 answers cut short / with status flags /
+         wrong IDm / wrong block count, Type 2 ACK/NAK nibbles instead of data
 
 Oracle (exactly the statement): activate() returns a tag or None; tag.ndef is
 None or an object with length <= capacity whose octets are a subsequence of
 the bytes of the data area that the (mutated) image itself declares, cut to
-the physical memory (model: `area_bytes`, written from the specifications, not
+the memory the tag answers for (model: `area_bytes`, from the specifications, not
 from the library); no exception of any kind leaves activate(), tag.ndef or
 the attributes; the budget holds.
+
+Signatures: tag type | operation (activate / ndef) | class of the deviation
+(mutated field classes, activation variant, script and the command it hits) |
+exception@function or oracle clause;model=<what the independent layout model
+says about the image>.
 """
 import time
 
@@ -210,6 +217,11 @@ class Base(object):
             d = short[lay.error]
             if d == 'ok' and not tlv.fits(lay.length, lay.avail):
                 d = 'ndef-exceeds-area'     # T, L and value do not fit
+            elif d == 'ok' and lay.avail == 257:
+                d = 'ok,avail=257'          # 254 octets fit, 255 do not
+            if any(t in (tlv.LOCK, tlv.MEM) and n != 3
+                   for (a, t, n) in lay.tlvs):
+                d += ',ctl-L!=3'            # control TLV the model ignores
             return d + (',area>phys' if end > len(m) else '')
         if self.kind == 'T3':
             from ref import t3 as r3
@@ -355,6 +367,7 @@ def bases():
     q.append(Base(tc.t1_case(256, 0x00, 0, 'beyond', 2), 7))
     q.append(Base(tc.t1_case(512, 0x4C, fill=6), 2))
     q.append(Base(tc.t1_case(120, 0x48, 2, 'before', 1), 20))
+    q.append(Base(tc.t1_case(512, 0x4C, fill=257), 254))
     t.append(Base(tc.t1_case(512, 0x4C, 0, 'none'), 254))
     t.append(Base(tc.t1_case(512, 0x4C, 0, 'none'), 255))
     t.append(Base(tc.t1_case(120, 0x00, 1, 'tail2', 2), 30))
@@ -372,6 +385,7 @@ def bases():
     q.append(Base(tc.t2_case(1016, 'generic', fill=6), 2))
     q.append(Base(tc.t2_case(128, 'ntag212', 0, 'tail2', 2), 40))
     q.append(Base(tc.t2_case(144, 'ntag213', 2, 'before', 1), 20))
+    q.append(Base(tc.t2_case(504, 'ntag215', fill=257), 254))
     t.append(Base(tc.t2_case(504, 'ntag215', 0, 'none'), 254))
     t.append(Base(tc.t2_case(504, 'ntag215', 0, 'none'), 255))
     t.append(Base(tc.t2_case(888, 'ntag216', 1, 'endx', 2), 500))
